@@ -104,30 +104,39 @@ def snaps_equal(a, b, rel=1e-9, skip_move_start=False):
     return True, ""
 
 
-def all_points_numeric(segs, allow_first_start_none=True):
-    """Every defining point of every segment has finite numeric x and y.
-    Returns (ok, message, nonfinite) ; nonfinite=True when a value is inf/nan (not None / non-number)."""
+def all_points_numeric(segs):
+    """Every defining point of every segment is present with finite numeric x and y.
+
+    Leniency the library documents (path fragments): a point may be None only
+    where no current point exists yet - the start of a segment when no earlier
+    segment has an end, and the end of a Close in the same situation (nothing to
+    close to). Move.start is a bookkeeping back-link and may always be None.
+    Returns (ok, message, nonfinite)."""
     nonfinite = False
+    have_point = False
     for i, seg in enumerate(segs):
         pts = seg_points(seg)
+        name = type(seg).__name__
         for j, p in enumerate(pts):
             if p is None:
-                if j == 0 and i == 0 and allow_first_start_none:
-                    continue  # a leading segment legitimately has no start (Move / fragment)
-                if j == 0 and type(seg).__name__ == "Move":
+                if j == 0 and (name == "Move" or not have_point):
                     continue
-                return False, "segment %d (%s) point %d is None" % (i, type(seg).__name__, j), nonfinite
+                if name == "Close" and j == 1 and not have_point:
+                    continue
+                return False, "segment %d (%s) point %d is None" % (i, name, j), nonfinite
             if isinstance(p, tuple):
                 for v in p:
                     if not is_num(v):
-                        return False, "segment %d (%s) point %d has non-numeric %r" % (i, type(seg).__name__, j, v), nonfinite
+                        return False, "segment %d (%s) point %d has non-numeric %r" % (i, name, j, v), nonfinite
                     if not math.isfinite(v):
                         nonfinite = True
             elif is_num(p):
                 if not math.isfinite(p):
                     nonfinite = True
-            elif p is not None:
-                return False, "segment %d (%s) field %d is %r" % (i, type(seg).__name__, j, p), nonfinite
+            else:
+                return False, "segment %d (%s) field %d is %r" % (i, name, j, p), nonfinite
+        if getattr(seg, "end", None) is not None:
+            have_point = True
     return True, "", nonfinite
 
 
